@@ -77,6 +77,22 @@ async fn copy_side_file(src: &Path, dst: &Path) -> io::Result<()> {
     Ok(())
 }
 
+/// `x-amz-copy-source-range`: `bytes=first-last`, both positions given and inside a source of `len` bytes;
+/// the positions of the first and the last byte to copy
+fn parse_copy_source_range(range: &str, len: u64) -> Option<(u64, u64)> {
+    // only digits: `str::parse` alone would accept a sign
+    fn position(s: &str) -> Option<u64> {
+        if s.is_empty() || !s.bytes().all(|b| b.is_ascii_digit()) {
+            return None;
+        }
+        s.parse().ok()
+    }
+
+    let (first, last) = range.strip_prefix("bytes=")?.split_once('-')?;
+    let (first, last) = (position(first)?, position(last)?);
+    (first <= last && last < len).then_some((first, last))
+}
+
 #[async_trait::async_trait]
 impl S3 for FileSystem {
     #[tracing::instrument]
@@ -762,27 +778,21 @@ impl S3 for FileSystem {
         };
         let file_len = try_!(src_file.metadata().await).len();
 
-        let (start, end) = if let Some(copy_range) = &input.copy_source_range {
-            if !copy_range.starts_with("bytes=") {
-                return Err(s3_error!(InvalidArgument));
-            }
-            let range = &copy_range["bytes=".len()..];
-            let parts: Vec<&str> = range.split('-').collect();
-            if parts.len() != 2 {
-                return Err(s3_error!(InvalidArgument));
-            }
-
-            let start: u64 = parts[0].parse().map_err(|_| s3_error!(InvalidArgument))?;
-            let mut end = file_len - 1;
-            if parts[1].is_empty().not() {
-                end = parts[1].parse().map_err(|_| s3_error!(InvalidArgument))?;
-            }
-            (start, end)
-        } else {
-            (0, file_len - 1)
+        // the bytes `start..end` of the source
+        let (start, end) = match input.copy_source_range {
+            Some(ref copy_range) => match parse_copy_source_range(copy_range, file_len) {
+                Some((first, last)) => (first, last + 1),
+                None => {
+                    return Err(s3_error!(
+                        InvalidArgument,
+                        "The x-amz-copy-source-range value must be of the form bytes=first-last where first and last are the zero-based offsets of the first and last bytes to copy"
+                    ));
+                }
+            },
+            None => (0, file_len),
         };
 
-        let content_length = end - start + 1;
+        let content_length = end - start;
         let content_length_usize = try_!(usize::try_from(content_length));
 
         let _ = try_!(src_file.seek(io::SeekFrom::Start(start)).await);
